@@ -76,3 +76,15 @@ CLAIMED["C20"] = (
     "Coq proof: abstract interpreter of the import protocol over import programs regenerated from the source by ast; invariant = canonical state of a dependency-closed set, complete enumeration of reachable states by vm_compute lifted with forallb_forall, induction over the import sequence + fresh-interpreter correspondence",
     "Theorems C20 (every sequence of imports of the 13 modules succeeds; every loaded module has exactly the namespace it has as first import), C20_first, C20_loaded_set, C20_same_names / C20_permutation (any two orders over the same modules end in the same state: same names bound to the same objects), C20_same_prediction.",
     "Trusted: Coq kernel with vm_compute; tools/extract_imports.py (fail-closed ast translator of module-level statements); that Model/Imports.v is CPython's import protocol for the statement forms the package uses — validated on every run by fresh-interpreter observations of all first imports, ordered pairs and permutations (tools/c20_impl.py). Partial: the theorem is about the model of the import system.")
+CLAIMED["C17"] = (
+    "Coq proof: memoisation transparency for all histories, all interleavings (memoised call atomic) and arbitrary eviction over caches reachable from empty; the note builder as a free-monad program proved equal to the model's parser; per-run static purity scan of the source (ast) + fresh-interpreter / in-process / threaded correspondence",
+    "Theorems C17_cached_reachable / C17_history_reachable / C17_schedule_reachable (any programs over any memoised functions: every program returns its cache-free result whatever ran before, whatever is interleaved, whatever is evicted), C17_builder_is_the_parser, C17_sections_after_any_history, C17_sections_schedule_from_empty (chartparse's four lru_cache tables and its note builder), C17_inv_call; C17_inv_evict_refuted records that the first formulation's invariant was too weak.",
+    MODEL_NOTE + " The claim that the four lru_cache tables are the package's only cross-call state is the per-run static scan tools/purity.py (memoised functions read only their parameters and immutable module names; no mutable defaults; no module/class-level container mutated by a function), checked in Tie/C17.v. Partial: real thread pre-emption inside CPython and fresh-interpreter equality are exercised by the correspondence only.")
+CLAIMED["C18"] = (
+    "Coq proof: one parameterised walk through the whole parser model showing which error constructors are reachable (all partial operations are explicit), numeric range analysis with Flocq for texts with <= 8-digit numerals + mutation-fuzzing correspondence with exact error-class comparison and rendering of everything",
+    "Theorems C18_struct (for EVERY text: IndexError, KeyError, TypeError, AttributeError, AssertionError, UnreachableError, ZeroDivisionError are unreachable), C18_errors (numeric tokens of at most 8 digits: only ValueError, RegexNotMatchError, MissingRequiredField escape; no float or timedelta conversion overflows), C18_render (every returned chart satisfies the formatters' preconditions: timestamps within the timedelta range, finite tempos).",
+    MODEL_NOTE + FLOAT_NOTE + " The Interval tactic in the numeric part also relies on the standard library's primitive-float axioms (FloatAxioms.*). Partial: the TEXT produced by str()/repr() is not modelled; that they succeed is exercised on every chart, track and event the harness parses.")
+CLAIMED["C19"] = (
+    "Coq proof by induction over operation sequences on a state machine whose only writable place is the outer instrument mapping (kind regenerated from the source by a probe parse) + vm_compute correspondence observing the full chart, key set and twin equality after every operation",
+    "Theorems C19_immutable (plain mapping: no sequence of read-only operations, failing ones included, changes the observation), C19_history_free, C19_twin, C19_frozen, C19_refuted_autoinsert (the pinned tree's defaultdict: repaired by fix 9b5729a).",
+    MODEL_NOTE + " Partial: that CPython's frozen dataclasses reject assignment and that the listed operations have no other side effect is what the model's step function states; it is checked by the correspondence (assignment and deletion of every field of every event/track class, full observation after every operation).")
